@@ -579,7 +579,7 @@ class Gen:
         self.add(mk_struct("KfOpt", "named", [mk_field("x", ("param", 0))], params=[("T", None)], optional_fields=True,
                            flatten_ok=False, no_ref=True))
         # the non-nullable spelling takes the field type through `<T as TS>::OptionInnerType`: the impl needs that bound (fix 9c750a6)
-        self.add(mk_struct("KfOptInner", "named", [mk_field("r", ("param", 0)), mk_field("k", ("option", ("leaf", "u8"))), mk_field("v", ("vec", ("param", 0)))],
+        self.add(mk_struct("KfOptInner", "named", [mk_field("r", ("param", 0)), mk_field("k", ("option", ("leaf", "u8")), skip_none=True), mk_field("v", ("vec", ("param", 0)))],
                            params=[("T", None)], optional_fields=False, flatten_ok=False, no_ref=True))
 
     def systematic(self):
@@ -713,6 +713,7 @@ class Gen:
                 insts.append(("named", d["ident"], args))
             qs += insts
         qs.append(("named", "KfOpt", [("option", ("leaf", "i32"))]))
+        qs.append(("named", "KfOptInner", [("option", ("leaf", "bool"))]))   # the C14 witness of optional_on_bare_param: `r: null` by name, not by inline
         # compositions of library types around user types
         for _ in range(40):
             qs.append(self.ty(2))
